@@ -14,6 +14,15 @@ def _digits(s, lo, hi=None):
     return len(s) >= lo and (hi is None or len(s) <= hi) and all(c in DIGITS for c in s)
 
 
+def to_int(digits):
+    """int() of a digit string of any length (Python refuses more than ~4300 digits in one conversion)."""
+    v = 0
+    for i in range(0, len(digits), 3000):
+        c = digits[i:i + 3000]
+        v = v * 10 ** len(c) + int(c)
+    return v
+
+
 def cycle_year(y):
     return 2001 + (y - 1) % 400
 
@@ -37,7 +46,7 @@ def parse_date(s):
     parts = s.split('-')
     if len(parts) != 3 or not _digits(parts[0], 4) or not _digits(parts[1], 2, 2) or not _digits(parts[2], 2, 2):
         return None
-    y, m, d = int(parts[0]), int(parts[1]), int(parts[2])
+    y, m, d = to_int(parts[0]), int(parts[1]), int(parts[2])
     if y < 1 or not 1 <= m <= 12 or not 1 <= d <= days_in_month(y, m):
         return None
     return (y, m, d)
@@ -47,7 +56,7 @@ def parse_month(s):
     parts = s.split('-')
     if len(parts) != 2 or not _digits(parts[0], 4) or not _digits(parts[1], 2, 2):
         return None
-    y, m = int(parts[0]), int(parts[1])
+    y, m = to_int(parts[0]), int(parts[1])
     if y < 1 or not 1 <= m <= 12:
         return None
     return (y, m)
@@ -57,7 +66,7 @@ def parse_week(s, model=None):
     parts = s.split('-W')
     if len(parts) != 2 or not _digits(parts[0], 4) or not _digits(parts[1], 2, 2):
         return None
-    y, w = int(parts[0]), int(parts[1])
+    y, w = to_int(parts[0]), int(parts[1])
     if y < 1 or not 1 <= w <= weeks_in_year(y, model):
         return None
     return (y, w)
